@@ -83,6 +83,17 @@ def run(chk):
     chk.count("exhaustive.scenarios", len(ex))
     chk.coverage["samples"].append(json.loads(A.describe(res[len(res) // 3])))
 
+    # ---- long standing backlogs (the loop's behaviour over many consecutive dequeues): 200 queued messages with the
+    # target's children exiting while it works through positions 58..70 (supervision events interleaved with the
+    # mailbox), full oracle; 1040 queued messages, oracle without the cubic real-time clause
+    window = tuple(range(58, 71))
+    lres = A.run_scenarios(chk, build, [A.long_backlog(200, kids=13, kid_window=window),
+                                        A.long_backlog(200, kids=13, kid_window=window, chunk=50),
+                                        A.long_backlog(130, kids=13, kid_window=tuple(range(120, 131)), chunk=7)], "C02L")
+    verdicts(chk, lres, "long", distinct)
+    lres = A.run_scenarios(chk, build, [A.long_backlog(1040)], "C02M", lite=True, only="C02")
+    verdicts(chk, lres, "long", distinct)
+
     n_rand = (700 if quick else 8000) * factor
     rnd = [A.gen_random(chk.rng, "order" if i % 4 else "drain") for i in range(n_rand)]
     rnd += [A.gen_remote(chk.rng) for _ in range(n_rand // 4)]
@@ -117,7 +128,8 @@ def run(chk):
         "wrong-typed and correctly typed requests through every public entry point: ActorCell::send_message, "
         "ActorRef::<T>::from(cell).send_message / cast / call / call with timeout / call_and_forward, rpc::cast, rpc::call, "
         "rpc::call_and_forward, rpc::multi_call, DerivedActorRef::send_message (get_derived), ActorRef::where_is + send; ActorCell::send_serialized Cast / Call with dropped or live reply receiver); "
-        "remote-id target (spawn_linked_remote): all action sequences of length <= 3 over serializable / non-serializable "
+        "long backlogs: 200 queued messages with 13 children of the target exiting while it handles positions 58..70, 1040 "
+        "queued messages (oracle without the real-time clause); remote-id target (spawn_linked_remote): all action sequences of length <= 3 over serializable / non-serializable "
         "sends, drain, stop, run, plus seeded random ones; "
         "random: seeded structured scenarios (up to 3 parked threads, handler scripts with self-sends / drain / stop / kill, "
         "re-entrant sends from box_message, wrong type, failing box/handler); stress: 2..8 uncontrolled OS threads x 4..15 "
